@@ -35,11 +35,13 @@ CLAIMED = {
                      "R2/R3/R4 are bounded in capacity / region size and listed as bounded.", "DESIGN.md 3.5, 4 C04"),
     "C05": ("proof", "Q3 (Verus, verbatim execute_sequences, all sequence lists): on EVERY path a block appends at most 128 KiB (rejected before being expanded), no "
                      "counter overflow; B2 (Verus): literals header capped, no-sequence path bounded; H1 (Kani, all 2^24 headers): raw/RLE blocks <= 128 KiB; "
-                     "FD1 (Kani, bounded): the byte budget is checked after every block; D2: window drains keep min(len, window); H4: window <= limit before "
-                     "the window reservation. The arithmetic composition is in DESIGN.md.", "DESIGN.md 4 C05"),
+                     "FD1V (Verus, verbatim decode_blocks, every source / block count / strategy): with UptoBytes(n) the buffer grows by less than n + one maximum block "
+                     "per call, at least one block per call; SD1: the streaming front end asks for at most the missing amount; D2: window drains keep min(len, window); "
+                     "H4: window <= limit before the window reservation. The arithmetic composition is in DESIGN.md.", "DESIGN.md 4 C05"),
     "C06": ("other", "BOUNDED contract checking on the real code, not a proof for all sizes (hence category 'other'): D1/D2 (Kani, real ring buffer at fixed capacities, arbitrary invariant start state, symbolic sink behaviour incl. partial acceptance and errors): "
             "every drain path hands out a prefix of the queue in order, removes exactly the accepted bytes (also on the error path) and hashes exactly those; "
-            "FD1 (Kani, bounded): blocks strictly in order, exact byte accounting, strategy only decides when to return; FD7 accessors; Q3/D0 (Verus): decoding "
+            "FD1V (Verus, unbounded, verbatim decode_blocks / decode_from_to): blocks strictly in order, exact byte accounting, the strategy only decides when to return, "
+            "the slice-to-slice call never reports more than it was given and decodes a block only when it is entirely present; FD3V (Verus): decode_all; FD7 accessors; Q3/D0 (Verus): decoding "
             "reads the window only at distance <= offset; SD1 (Kani, bounded script): StreamingDecoder::read serves min(request, available), short reads only at the end "
             "of the frame, asks for at most the missing amount. Schedule independence of the complete output is the composition argued in DESIGN.md.", "DESIGN.md 4 C06"),
     "C07": ("proof", "FD5 (Verus, verbatim bodies, unbounded Vec sizes): DecoderScratch::reset establishes, from ANY prior state, exactly the state DecoderScratch::new "
@@ -53,16 +55,20 @@ CLAIMED = {
             "dict ++ window incl. straddling, error iff the offset reaches before the dictionary or the window has passed; S2/Q3: hostile zero offsets resolve "
             "to the corrupt result. FD6 (Kani, dictionaries of 7/8/20/26 bytes with all contents, table parsers as contract stubs with arbitrary outcomes): "
             "id, offsets, content at the positions the format defines, table order and max logs, Ok iff complete.", "DESIGN.md 4 C09"),
-    "C10": ("proof", "Exact consumption per stage: H2 (frame header length == bytes taken, every truncation is an error), H1 (3 bytes), B2 (content_size bytes), FD1 "
-            "(Kani, bounded: counter == sum of header+body (+4 checksum), exactly those bytes leave the source, truncation at every cut point is an error and "
-            "never 'finished'), FD4/FD7 counters restart per frame, R2 extend_from_reader takes exactly n bytes. FD3 (Kani, bounded script): decode_all_to_vec length/capacity discipline; multi-frame decode_all in the thorough tier.", "DESIGN.md 4 C10"),
+    "C10": ("proof", "Exact consumption per stage: H2 (frame header length == bytes taken, every truncation is an error), H1 (3 bytes), B2 (content_size bytes), FD1V "
+            "(Verus, unbounded, verbatim decode_blocks and decode_from_to: counter growth == bytes taken from the source == 3 per header + body + 4 checksum bytes iff "
+            "flagged; Ok(finished) only after the last block and its checksum; decode_from_to never reports more than it was given), FD3V (Verus, unbounded, verbatim "
+            "decode_all: frames and skippable frames strictly in order, skipped by exactly the declared length, a frame is drained before the next starts, Ok only "
+            "when the whole input is consumed, TargetTooSmall), FD4/FD7 counters restart per frame, R2 extend_from_reader takes exactly n bytes, FD3 (Kani, bounded): "
+            "decode_all_to_vec length/capacity discipline.", "DESIGN.md 4 C10"),
     "C11": ("proof", "Loop-free/constant-loop Kani proofs over all 256 window descriptors, all single-segment sizes, all limits and every "
                      "<= 20-byte header: exact boundary of the comparison, rejection carries (requested, limit), the reuse path reaches the "
                      "window reservation only with window <= limit (callee precondition via contract stub), clamp to the format maximum, "
                      "and every front end passes the configured limit on.", "DESIGN.md 3.2 H3/H4, 4 C11"),
     "C12": ("proof", "F1 (Kani, complete for accuracy logs 5..=9): baseline/bit-count arithmetic equals RFC 4.1.1, states tile the table; F2c (Kani): the three predefined "
             "tables built by the real code equal RFC Appendix A cell by cell; F3 (Verus, unbounded): description reader - range, sum == 2^al, termination; "
-            "Q2 (Verus): stepping stays inside a well-formed table, all bits consumed; F6 (Kani, bounded): encoder normalisation yields a valid distribution. "
+            "Q2 (Verus): stepping stays inside a well-formed table, all bits consumed; F6 (Kani, bounded): encoder normalisation yields a valid distribution; "
+            "F7 (Verus, unbounded): the encoder's table description writer is total (widths, indices, termination) - not yet that it parses back. "
             "F2 (Verus, unbounded, verbatim body of build_decoding_table / build_decoder / build_from_probabilities): for EVERY distribution with cell sum 2^al, al in 5..=9, "
             "the spread walk terminates and is a bijection (explicit modular inverse of the step), every cell's symbol is the one the RFC spread defines, the less-than-one "
             "symbols sit at the top in order, and every state's (baseline, bits) is calc_baseline_and_numbits at its rank (== RFC by F1). "
@@ -81,7 +87,8 @@ CLAIMED = {
             "E3 (complete): emitted frame header parses back with a legal window >= the matcher's; H1' block header inverse; E8 literal header widths; "
             "E7V (Verus, unbounded): match offsets within the retained data and the advertised window.", "DESIGN.md 4 C15"),
     "C16": ("proof", "Obligations of the block encoder under an assumed well-behaved matcher: S1 encoder maps total over the whole value ranges (unreachable! arms "
-            "unreachable), H6' every sequence count, F6 (bounded) normalisation total incl. single-symbol histograms, E4 ghost-sync (no Huffman table is kept "
+            "unreachable), H6' every sequence count, F6 (bounded) normalisation total incl. single-symbol histograms, F7 (Verus) table writer total, E6 (concrete, thorough tier) "
+            "single-valued literals never reach the Huffman path, E4 ghost-sync (no Huffman table is kept "
             "that the decoder did not receive), E8 literal header widths. Three defects of this class were found and repaired (F3 F4 F5 F8).", "DESIGN.md 4 C16, Part II 10"),
     "C17": ("proof", "E7V (Verus, verbatim bodies of MatchGenerator::new / reserve / add_data / skip_matching / next_sequence, every history of blocks, every window size): "
             "the window holds a chronological suffix of the blocks given, window_size = retained length <= maximum, base_offset of every entry = distance to the newest "
